@@ -5,8 +5,8 @@ import json
 import os
 import re
 
-from rulelib import SHIPPED, bool_edges, call_sites, callgraph, cfg_of, defs_of, owner
-from dataflow import const_value, origins
+from rulelib import SHIPPED, bool_edges, call_sites, callgraph, cfg_of, defs_of, owner, short
+from dataflow import base_local, const_value, origins
 from facts import canon
 
 VERIF = os.path.dirname(os.path.dirname(os.path.abspath(__file__)))
@@ -734,6 +734,10 @@ def run(prog, chk):
     chk.floor("R1.1", "panic-capable sites enumerated", counts["sites"], 300)
     # R1.2 / R1.3 shared with C07
     from rules import c07
+    chk.rule("R1.4", "counter-bounded loops increment their counter on every cycle (restart / retry limits really bound the loop)")
+    bounded_retry_rule(prog, chk, "R1.4")
+    chk.rule("R1.5", "printf's re-apply loop stops after one pass when the parsed format has no operand-consuming item (guard computed from the parsed items)")
+    printf_guard_rule(prog, chk, "R1.5")
     chk.rule("R1.3", "recursion guards: deref_lvalue depth test; push_function behind the max_function_call_depth test with one caller")
     c07.deref_depth_rule(prog, chk, "R1.3")
     ef = prog.body("brush_core::shell::Shell::enter_function")
@@ -764,3 +768,123 @@ def run(prog, chk):
             chk.ok("R1.3", "push_function-single-caller", "only enter_function pushes function frames", function=ef.name)
         else:
             chk.fail("R1.3", "(callers)", "push_function-callers", "push_function callers: %s" % sorted(callers))
+
+
+def bounded_retry_rule(prog, chk, rid):
+    """R1.4: a loop that is bounded by a retry/restart counter really counts. For every source loop in the shipped crates in which a
+    local counter is (a) compared with a limit on an edge that leaves the loop and (b) incremented by a constant inside the loop, no cycle
+    of the loop avoids the increment: otherwise the iterations on that cycle are not bounded by the limit and an input that keeps
+    choosing it spins for ever (the completion entry point restarting on status 124 is the in-repo instance)."""
+    n = 0
+    for b in prog.all_bodies(SHIPPED):
+        c = cfg_of(b)
+        loops = c.source_loops()
+        if not loops:
+            continue
+        d = defs_of(b)
+        for h, blks in loops.items():
+            # counters incremented by a constant inside the loop: cnt = (cnt + k).0 after a checked add, or cnt = cnt + k
+            incs = {}
+            for bb in blks:
+                for st in b.blocks[bb].stmts:
+                    if st.kind != 'a' or not st.place.is_local():
+                        continue
+                    og = origins(b, d, st.rv.ops[0], transparent=set(), through_ops=False) if st.rv.ops else []
+                    for o in og:
+                        if o.kind == 'op' and o.node.kind == 'bin' and o.node.op in ("Add", "AddWithOverflow", "AddUnchecked") and len(o.node.ops) == 2 \
+                                and o.node.ops[0].place is not None and o.node.ops[0].place.is_local() and o.node.ops[0].place.local == st.place.local \
+                                and const_value(b, d, o.node.ops[1]) is not None:
+                            incs.setdefault(st.place.local, set()).add(bb)
+            if not incs:
+                continue
+            for cnt, inc_blocks in incs.items():
+                # is cnt compared with a limit on an edge that leaves the loop?
+                bounded = False
+                for bb in blks:
+                    t = b.blocks[bb].term
+                    if t.kind != "switch":
+                        continue
+                    leaves = [s for s in c.succ[bb] if s not in blks or c.path(s, [h], avoid=[x for x in range(len(b.blocks)) if x not in blks]) is None]
+                    if not leaves:
+                        continue
+                    for o in origins(b, d, t.discr, transparent=set()):
+                        if o.kind == 'op' and o.node.kind == 'bin' and o.node.op in ("Gt", "Ge", "Lt", "Le", "Eq", "Ne"):
+                            sides = [x for op in o.node.ops for x in origins(b, d, op, transparent=set(), through_ops=False)]
+                            names = [op.place.local for op in o.node.ops if op.place is not None and op.place.is_local()]
+                            # a *named* limit (const item such as MAX_RESTARTS): literal comparisons are ordinary counting / nesting logic
+                            limit = any(op.const is not None and op.const.def_path for op in o.node.ops) or \
+                                any(x.kind == 'const' and x.node.def_path for op in o.node.ops for x in origins(b, d, op, transparent=set(), through_ops=False))
+                            if limit and (cnt in names or any(base_local(b, d, op) == cnt for op in o.node.ops if op.place is not None)):
+                                bounded = True
+                if not bounded:
+                    continue
+                n += 1
+                fn = owner(b.name)
+                p = c.path(h, [h], avoid=set(inc_blocks) | {x for x in range(len(b.blocks)) if x not in blks}, after=True)
+                nm = b.local_name(cnt) or "_%d" % cnt
+                if p is None:
+                    chk.ok(rid, "counted-loop:%s:%s" % (short(fn), nm), "every cycle of the loop increments `%s`" % nm, function=fn)
+                else:
+                    chk.fail(rid, fn, "retry-loop-cycle-without-increment:" + nm,
+                             "%s bounds a loop with the counter `%s`, but the loop has a cycle that does not increment it (blocks %s): the limit does not bound the "
+                             "number of iterations on that cycle" % (fn, nm, p[:8]))
+    chk.floor(rid, "counter-bounded loops examined", n, 1)
+
+
+def printf_guard_rule(prog, chk, rid):
+    """R1.5: printf re-applies its format while operands remain; the guard that stops after one pass when the format cannot consume an
+    operand must be computed from the parsed format items (the same objects that do the consuming), not from the text of the format:
+    `%%` contains a `%` but consumes nothing."""
+    from dataflow import flow_back
+    fnname = "brush_builtins::printf::format_via_uucore"
+    b = prog.impl_body(fnname)
+    if not chk.anchor(rid, fnname, b):
+        return
+    c = cfg_of(b)
+    d = defs_of(b)
+    loops = c.source_loops()
+    ok = False
+    textual = None
+    for h, blks in loops.items():
+        if not any((b.blocks[x].term.kind == "call" and (b.blocks[x].term.best_callee() or "").endswith("FormatArguments::is_exhausted")) for x in blks):
+            continue
+        for bb in blks:
+            t = b.blocks[bb].term
+            if t.kind != "switch" or not any(s not in blks for s in c.succ[bb]):
+                continue
+            fl = flow_back(b, d, t.discr, all_args=True)
+            vias = {v for f in fl for v in f.via}
+            if any(v.endswith("printf::parse_format_string") for v in vias) or any(v.endswith(("Iterator::any", "Iterator>::any")) for v in vias):
+                if any(v.endswith("printf::parse_format_string") for v in vias):
+                    ok = True
+            if any(v.endswith(("str::contains", "str::find", "str::matches")) for v in vias):
+                textual = sorted(v for v in vias if v.endswith(("str::contains", "str::find", "str::matches")))[0]
+    # a stop request from an item (`\\c`) leaves the outer re-apply loop too
+    outer = None
+    for h, blks in loops.items():
+        if any((b.blocks[x].term.kind == "call" and (b.blocks[x].term.best_callee() or "").endswith("FormatArguments::is_exhausted")) for x in blks):
+            if outer is None or len(blks) > len(loops[outer]):
+                outer = h
+    if outer is not None:
+        for bb in loops[outer]:
+            t = b.blocks[bb].term
+            if t.kind != "switch":
+                continue
+            for o in origins(b, d, t.discr, transparent=set()):
+                if o.kind == 'call' and (o.node.best_callee() or o.node.callee or "").endswith(("PartialEq>::eq", "PartialEq::eq")) and \
+                        any("ControlFlow" in b.local_ty(a.place.local) for a in o.node.args if a.place is not None):
+                    f_edge, t_edge = bool_edges(t)
+                    if t_edge is not None and c.path(t_edge, [outer], avoid=[]) is not None:
+                        chk.fail(rid, fnname, "stop-request-stays-in-reapply-loop",
+                                 "when a format item asks to stop (ControlFlow::Break, the `\\c` escape) printf only leaves the pass over the format; the re-apply loop "
+                                 "goes on with operands that are never consumed: `printf 'a\\cb%s' 1 2` prints for ever")
+                    else:
+                        chk.ok(rid, "stop-request-leaves-loop", "the Break edge cannot reach the re-apply loop's head again", function=fnname)
+    if textual:
+        chk.fail(rid, fnname, "reapply-guard-from-format-text",
+                 "the guard that stops printf after one pass is computed from the format text (%s), not from the parsed items: `printf '100%%%%\\n' a b` has a `%%` "
+                 "but no conversion that consumes an operand and prints for ever" % short(textual))
+    elif ok:
+        chk.ok(rid, "reapply-guard-from-parsed-items", "the single-pass guard derives from parse_format_string's items", function=fnname)
+    else:
+        chk.fail(rid, fnname, "reapply-guard-missing", "no exit of the re-apply loop depends on the parsed format items: a format that consumes no operand loops for ever when operands are given")
